@@ -163,6 +163,28 @@ FieldNamesUnique(La) == La.dupfield = <<>>
 \* bit outside every bit-field does not survive GetConfig -> LoadConfig
 FieldsCover(La) == La.uncovered = <<>>
 
+\* ------------------------------------------------------------------ which register file does the database prescribe (alias families)
+\* The device database is a set of folders; a folder either describes a device or names the device it is an ALIAS of and holds only what differs.
+\* chain = the folder of the family first, then the device it is an alias of, then the device THAT one is an alias of ... - as the raw
+\* database.yaml files name them; chain[i].f # 0: folder i holds a file of the name the (merged) feature gives (f = index into the table of the
+\* distinct files found).  The NEAREST own file is the prescribed one - a device in between that has its own register file is not skipped.
+HasFile(chain) == \E i \in DOMAIN chain : chain[i].f # 0
+Nearest(chain) == CHOOSE i \in DOMAIN chain : chain[i].f # 0 /\ \A j \in 1..(i - 1) : chain[j].f = 0
+PrescribedFile(chain) == chain[Nearest(chain)].f
+\* composition law of aliases (checked by TLC as an assumption of CfgAreaMC over all chains of up to 4 folders): the file of a family is its
+\* own file if it has one, else the file prescribed for the device it is an alias of - at every depth
+RECURSIVE ByAlias(_)
+ByAlias(chain) == IF chain = <<>> THEN 0 ELSE IF chain[1].f # 0 THEN chain[1].f ELSE ByAlias(Tail(chain))
+\* register maps (name n, byte offset o, width w, OTP index x of fuse maps; -1 = none) in canonical order: the positions where two maps differ
+MapDiff(exp, obs) == {i \in 1..(IF Len(exp) > Len(obs) THEN Len(exp) ELSE Len(obs)) : i > Len(exp) \/ i > Len(obs) \/ exp[i] # obs[i]}
+\* RegisterMap: the register map the area object works on (part.obs, read from the real object) is the map of the prescribed file
+PartAgrees(part) == HasFile(part.chain) /\ MapDiff(part.files[PrescribedFile(part.chain)], part.obs) = {}
+RegisterMapHolds(parts) == \A p \in DOMAIN parts : PartAgrees(parts[p])
+\* witness of a failing RegisterMap clause: 10000 * part + first differing position (0: no folder of the chain holds the file)
+FirstOf(S) == IF S = {} THEN 0 ELSE CHOOSE i \in S : \A x \in S : i <= x
+MapWitness(parts) == LET p == FirstOf({q \in DOMAIN parts : ~PartAgrees(parts[q])}) IN
+                     IF p = 0 THEN 0 ELSE 10000 * p + (IF HasFile(parts[p].chain) THEN FirstOf(MapDiff(parts[p].files[PrescribedFile(parts[p].chain)], parts[p].obs)) ELSE 0)
+
 \* ------------------------------------------------------------------ actions
 Keep == UNCHANGED lay
 NewObject == /\ bits' = Fresh(L) /\ nrm' = (Computed(L) = {}) /\ gen' = gen + 1
